@@ -149,6 +149,13 @@ def check_pair(ctx, P, t, a, base=None):
                 whole = mido.parse_all(list(P) + enc + G)
                 ctx.check('parse(P+enc(M)) == parse(P)+[M]', whole == base + [M] + tail, 'suffix-after-complete-message:' + t, case,
                           lambda: {'suffix': G, 'got': [m.hex() for m in whole], 'want': [m.hex() for m in base + [M] + tail]})
+                # the same, delivered as a backend does: the prefix, the message and what follows each in a call of its own
+                p3 = Parser()
+                for part in (list(P), bytes(enc) if len(G) % 2 else list(enc), list(G)):
+                    p3.feed(part)
+                three = list(p3)
+                ctx.check('parse(P+enc(M)) == parse(P)+[M]', three == base + [M] + tail, 'suffix-after-complete-message:three-calls:' + t, case,
+                          lambda: {'suffix': G, 'got': [m.hex() for m in three], 'want': [m.hex() for m in base + [M] + tail]})
         # the call that delivered the prefix ended badly - its source raised after the last byte of P, or an item
         # that is no MIDI byte followed P - and M arrives in the next call: M is still recognised, and what
         # P had completed is still delivered
